@@ -1252,25 +1252,85 @@ async fn run_fanout_busy(round: usize) -> Result<(), Fail> {
     }
     Ok(())
 }
+/// C03 on the push path: once the leases taken by a push round have run out and another consumer holds the messages,
+/// that round no longer hands them to the endpoint. Endpoint: accepts every request and does not answer during the scenario.
+async fn run_push_stale(n: usize) -> Result<(), Fail> {
+    use deltio::push::push_loop::PushLoop;
+    use deltio::push::PushSubscriptionsRegistry;
+    let deadline = Duration::from_secs(10);
+    let (url, mut rx) = rpc::push_endpoint_delayed(3_600_000).await?;
+    let reg = PushSubscriptionsRegistry::new();
+    let tm = TopicManager::new();
+    let sm = Arc::new(SubscriptionManager::new(reg.clone()));
+    let topic = tm.create_topic(TopicName::new("p", "ps")).map_err(|_| Fail { prop: "SETUP", what: "create".into() })?;
+    let sub = sm.create_subscription(SubscriptionInfo::new(SubscriptionName::new("p", "ps"), deadline, Some(PushConfig::new(url, None, None))), Arc::clone(&topic))
+        .await.map_err(|_| Fail { prop: "SETUP", what: "create push sub".into() })?;
+    topic.publish_messages((0..n).map(|i| TopicMessage::new(Bytes::from(format!("m{}", i)), None)).collect()).await.map_err(|_| Fail { prop: "SETUP", what: "publish".into() })?;
+    for _ in 0..10_000 {
+        if sub.get_stats().await.map_err(|_| Fail { prop: "SETUP", what: "stats".into() })?.backlog_messages_count == n { break; }
+        tokio::task::yield_now().await;
+    }
+    // one push round only: it starts right away and leases the whole backlog
+    let task = tokio::spawn(PushLoop::new(Duration::from_secs(3_600), Arc::clone(&sm), reg.clone()).run());
+    let started = Instant::now();
+    let ran_out = started + deadline + Duration::from_millis(1_200);
+    let mut first_round = 0usize;
+    loop {
+        tokio::select! {
+            Some(_) = rx.recv() => first_round += 1,
+            _ = tokio::time::sleep_until(ran_out) => break,
+        }
+    }
+    let pulled_at = Instant::now();
+    let pulled = sub.pull_messages(1_000).await.map_err(|_| Fail { prop: "SETUP", what: "pull".into() })?;
+    let held: std::collections::HashSet<String> = pulled.iter().map(|m| m.message().id.to_string()).collect();
+    let until = pulled_at + deadline - Duration::from_secs(2);
+    let mut late: Vec<(String, Duration)> = Vec::new();
+    loop {
+        tokio::select! {
+            Some(body) = rx.recv() => {
+                if let Ok(v) = serde_json::from_slice::<serde_json::Value>(&body) {
+                    let id = v["message"]["messageId"].as_str().unwrap_or("").to_string();
+                    if held.contains(&id) { late.push((id, Instant::now() - pulled_at)); }
+                }
+            },
+            _ = tokio::time::sleep_until(until) => break,
+        }
+    }
+    task.abort();
+    if let Some((id, at)) = late.first() {
+        return Err(Fail { prop: "C03", what: format!("push subscription (ack deadline 10 s, backlog {}, endpoint that does not answer): the push round had dispatched {} messages when its leases ran out; a Pull then leased {} messages and kept them; {} of those were POSTed to the endpoint while that lease was outstanding (first: message {} after {:?})", n, first_round, held.len(), late.len(), id, at) });
+    }
+    Ok(())
+}
 fn cmd_wakeup(rounds: usize) -> i32 {
+    // every scenario runs; each failing one prints its own WITNESS line
+    let mut bad = 0;
+    for n in [300usize, 900] {
+        if let Err(e) = rt().block_on(run_push_stale(n)) {
+            println!("WITNESS {{\"kind\":\"wakeup\",{},\"scenario\":\"push_stale_page\",\"observed\":{:?},\"backlog\":{}}}", prop_json(e.prop), e.what, n);
+            bad += 1; break;
+        }
+    }
     for r in 0..rounds.max(6) {
         if let Err(e) = rt().block_on(run_fanout_busy(r)) {
             println!("WITNESS {{\"kind\":\"wakeup\",{},\"scenario\":\"fanout_busy\",\"observed\":{:?},\"round\":{}}}", prop_json(e.prop), e.what, r);
-            return 1;
+            bad += 1; break;
         }
     }
     for r in 0..rounds {
         if let Err(e) = rt().block_on(run_wakeup_cancelled(r)) {
             println!("WITNESS {{\"kind\":\"wakeup\",{},\"scenario\":\"cancelled_consumer\",\"observed\":{:?},\"round\":{}}}", prop_json(e.prop), e.what, r);
-            return 1;
+            bad += 1; break;
         }
     }
     for nb in [1usize, 3, 4] {
         if let Err(e) = rt().block_on(run_bulk_expiry(nb)) {
             println!("WITNESS {{\"kind\":\"wakeup\",{},\"scenario\":\"bulk_expiry\",\"observed\":{:?},\"batches\":{}}}", prop_json(e.prop), e.what, nb);
-            return 1;
+            bad += 1; break;
         }
     }
+    if bad > 0 { return 1; }
     println!("NO-WITNESS wakeup rounds={}", rounds);
     0
 }
